@@ -1,6 +1,6 @@
 // LinearCodePCS (linear_codes/mod.rs): verifier `check`, prover-side `generate_proof`  (C10, C02, C03, C11, C13, C19)
 //@use core ops_gen labeled_comm sponge std ser real
-//@spec ring vec_spec lc_utils_spec
+//@spec ring vec_spec lc_utils_spec lincode_spec
 //@typemap /Self::VerifierKey/ => Params
 //@typemap /Self::Proof/ => Vec<LinCodePCProof>
 //@typemap /Self::Commitment/ => LinCodePCCommitment
@@ -25,51 +25,6 @@
 //@stub from=lc_utils.rs id=lc_utils.calculate_t
 //@stub from=lc_utils.rs id=lc_utils.get_indices_from_sponge
 //@stub from=hyrax.rs id=utils.inner_product
-
-// ======================= specification: Ligero / Brakedown verifier, [AHIV17] sec. 4, [GLSTW21] fig. 2 =======================
-// number of column openings for a commitment: t of ITS OWN codeword length
-pub open spec fn lc_t(vk: &Params, com: &LinCodePCCommitment) -> int { t_value(vk.sec as int, vk.dist, com.metadata.n_ext_cols as int) }
-// sponge state when the column indices of one proof are drawn: root, [r <- squeeze(n_rows); absorb v_wf], point, v absorbed
-pub open spec fn lc_pre_wf(s: SS, com: &LinCodePCCommitment) -> SS { sp_absorb(s, AbsData::Bytes(com.root.ser_bytes())) }
-#[verifier::opaque]
-pub open spec fn lc_pre_indices(s: SS, vk: &Params, com: &LinCodePCCommitment, pr: &LinCodePCProof, pv: Seq<FS>) -> SS {
-    let s1 = lc_pre_wf(s, com);
-    let s2 = if vk.wf { sp_absorb(sp_sqn_next(s1, com.metadata.n_rows as nat), AbsData::Field(fviews(pr.well_formedness->Some_0@))) } else { s1 };
-    sp_absorb(sp_absorb(s2, AbsData::Field(pv)), AbsData::Field(fviews(pr.opening.v@)))
-}
-#[verifier::opaque]
-pub open spec fn lc_index(s: SS, vk: &Params, com: &LinCodePCCommitment, pr: &LinCodePCProof, pv: Seq<FS>, j: nat) -> nat {
-    let nb = get_num_bytes_spec(com.metadata.n_ext_cols);
-    be_value(sp_sqb(idx_state(lc_pre_indices(s, vk, com, pr, pv), nb, j), nb), nb) % (com.metadata.n_ext_cols as nat)
-}
-#[verifier::opaque]
-pub open spec fn lc_post(s: SS, vk: &Params, com: &LinCodePCCommitment, pr: &LinCodePCProof, pv: Seq<FS>) -> SS {
-    idx_state(lc_pre_indices(s, vk, com, pr, pv), get_num_bytes_spec(com.metadata.n_ext_cols), lc_t(vk, com) as nat)
-}
-pub open spec fn lc_state(s: SS, vk: &Params, coms: Seq<&LabeledCommitment<LinCodePCCommitment>>, prs: Seq<LinCodePCProof>, pv: Seq<FS>, k: nat) -> SS decreases k {
-    if k == 0 { s } else { lc_post(lc_state(s, vk, coms, prs, pv, (k - 1) as nat), vk, &coms[k - 1].commitment, &prs[k - 1], pv) }
-}
-// everything the verifier must have established for the i-th (commitment, value, proof) triple before accepting
-#[verifier::opaque]
-pub open spec fn lc_accepts_one(s: SS, vk: &Params, com: &LinCodePCCommitment, value: FS, pr: &LinCodePCProof, z: &Pt) -> bool {
-    let t = lc_t(vk, com); let pv = point_vec_spec(*z);
-    let a = tensor_a(z, com.metadata.n_cols as nat, com.metadata.n_rows as nat); let b = tensor_b(z, com.metadata.n_cols as nat, com.metadata.n_rows as nat);
-    let w = encode_spec(fviews(pr.opening.v@), vk);
-    (vk.wf ==> pr.well_formedness is Some)
-    && pr.opening.paths@.len() >= t && pr.opening.columns@.len() >= t                                  // t columns are opened ...
-    && (forall|j: int| 0 <= j < t ==> (#[trigger] pr.opening.paths@[j]).leaf_index == lc_index(s, vk, com, pr, pv, j as nat))   // ... at the transcript-derived positions
-    && (forall|j: int| 0 <= j < t ==> (#[trigger] lc_index(s, vk, com, pr, pv, j as nat)) < w.len()
-            && ip(b, fviews(pr.opening.columns@[j]@)) == w[lc_index(s, vk, com, pr, pv, j as nat) as int])   // column consistency <b, col_j> = E(v)[q_j]
-    && (vk.wf ==> (forall|j: int| 0 <= j < t ==>
-            ip(sqn_seq(lc_pre_wf(s, com), com.metadata.n_rows as nat), fviews(pr.opening.columns@[j]@))
-              == encode_spec(fviews(pr.well_formedness->Some_0@), vk)[(#[trigger] lc_index(s, vk, com, pr, pv, j as nat)) as int]))        // well-formedness consistency
-    && ip(fviews(pr.opening.v@), a) == value                                                               // claimed value = <v, a>
-}
-pub open spec fn sqn_seq(s: SS, n: nat) -> Seq<FS> { Seq::new(n, |i: int| sp_sqn_fe(s, n, i as nat)) }
-#[verifier::opaque]
-pub open spec fn lc_paths_authentic(s: SS, vk: &Params, com: &LinCodePCCommitment, pr: &LinCodePCProof) -> bool {
-    forall|j: int| 0 <= j < lc_t(vk, com) ==> path_valid((#[trigger] pr.opening.paths@[j]), com.root, col_hash(fviews(pr.opening.columns@[j]@)))
-}
 
 pub struct LinearCodePCS;
 impl LinearCodePCS {
@@ -127,7 +82,6 @@ impl LinearCodePCS {
             proof { assert(n2 == min(col_hashes@.len(), indices@.len())); assert(col_hashes@.len() == proof.opening.columns@.len()); }
 //@after /let w_well_formedness = L::encode\(well_formedness, vk\)\?;/
                 proof {
-                    reveal(lc_pre_indices);
                     assert(fviews(r@) =~= sqn_seq(lc_pre_wf(s_i, commitment), n_rows as nat));
                     assert(*well_formedness == proof.well_formedness->Some_0);
                 }
@@ -135,23 +89,21 @@ impl LinearCodePCS {
                 proof {
                     assert forall|jx: int| 0 <= jx < t implies
                         ip(sqn_seq(lc_pre_wf(s_i, commitment), n_rows as nat), fviews(proof.opening.columns@[jx]@))
-                          == encode_spec(fviews(proof.well_formedness->Some_0@), vk)[(#[trigger] lc_index(s_i, vk, commitment, proof, point_vec_spec(*point), jx as nat)) as int] by {
-                        assert(indices@[jx] == lc_index(s_i, vk, commitment, proof, point_vec_spec(*point), jx as nat));
+                          == encode_spec(fviews(proof.well_formedness->Some_0@), vk)[(#[trigger] indices@[jx]) as int] by {
+                        assert(fviews(w_well_formedness@)[indices@[jx] as int] == w_well_formedness@[indices@[jx] as int]@);
                     }
                 }
+//@before /let indices = get_indices_from_sponge/
+            let ghost s_pre = sponge.st@;
 //@after /let indices = get_indices_from_sponge/
             let ghost s_i = lc_state(old(sponge).st@, vk, commitments@, proof_array@, point_vec_spec(*point), i as nat);
             proof {
-                reveal(lc_pre_indices); reveal(lc_index); reveal(lc_post);
-                assert(t == lc_t(vk, commitment));
                 assert(fviews(point_vec@) == point_vec_spec(*point));
-                assert forall|jj: int| 0 <= jj < t implies (#[trigger] indices@[jj]) == lc_index(s_i, vk, commitment, proof, point_vec_spec(*point), jj as nat) by {}
-                assert(sponge.st@ == lc_post(s_i, vk, commitment, proof, point_vec_spec(*point)));
+                assert(s_pre == lc_pre_indices(s_i, vk, commitment, proof, point_vec_spec(*point))) by { reveal(lc_pre_indices); }
+                lemma_lc_indices(s_i, vk, commitment, proof, point_vec_spec(*point), s_pre, sponge.st@, indices@, t as int);
             }
 //@loopend 1
             proof {
-                reveal(lc_accepts_one);
-                let pv = point_vec_spec(*point);
                 assert(ip(fviews(proof.opening.v@), fviews(a@)) == value@);
                 if t > 0 {
                     assert(indices@[t - 1] < w@.len());                     // loops 3/4 ran t times: t columns are present
@@ -159,11 +111,9 @@ impl LinearCodePCS {
                     assert(n2 == t);                                        // hence loop 2 ran t times as well
                     assert(proof.opening.paths@[t - 1].leaf_index == indices@[t - 1]);
                 }
-                assert forall|jx: int| 0 <= jx < t implies (#[trigger] lc_index(s_i, vk, commitment, proof, pv, jx as nat)) == indices@[jx] by { assert(indices@[jx] == indices@[jx]); }
                 assert(fviews(w@) == encode_spec(fviews(proof.opening.v@), vk));
-                assert(lc_accepts_one(s_i, vk, commitment, value@, proof, point));
-                reveal(lc_paths_authentic);
-                assert(lc_paths_authentic(s_i, vk, commitment, proof));
+                lemma_lc_accepts_intro(s_i, vk, commitment, value@, proof, point, indices@, fviews(w@), fviews(a@), fviews(b@));
+                lemma_lc_paths_intro(s_i, vk, commitment, proof);
             }
 //@end
 }
